@@ -70,6 +70,52 @@ class _Boom(Exception):
     pass
 
 
+class _Interrupt(BaseException):
+    """A watchdog/timeout style fault that is deliberately not an `Exception`."""
+
+
+def _fault(kind):
+    return {"base": _Interrupt("injected fault"), "kbd": KeyboardInterrupt(), "exit": SystemExit(3)}.get(
+        kind, RuntimeError("injected fault"))
+
+
+class _FaultyContains(dict):
+    """A definition whose first access (`'name' not in unit`) raises: model `UnitDef.other`."""
+    _c09_fault = "early"
+
+    def __init__(self, kind):
+        super().__init__(magnitude=1, dimensions=[1, 0, 0, 0, 0, 0, 0, 0])
+        self._kind = kind
+
+    def __contains__(self, k):
+        raise _fault(self._kind)
+
+
+class _FaultyMagnitude(dict):
+    """A definition whose `unit['magnitude']` raises (after the conversion class went into UNIT_TYPES):
+    the model's dict without a magnitude."""
+    _c09_fault = "late"
+
+    def __init__(self, data, kind):
+        super().__init__(data)
+        self._kind = kind
+
+    def __getitem__(self, k):
+        if k == "magnitude":
+            raise _fault(self._kind)
+        return super().__getitem__(k)
+
+
+class _FaultyValue:
+    """`unit.magnitude.value` raises: model `quantity broken`."""
+    def __init__(self, kind):
+        self._kind = kind
+
+    @property
+    def value(self):
+        raise _fault(self._kind)
+
+
 class Worker:
     def __init__(self):
         repo = os.environ.get("VERIF_REPO", "/repo")
@@ -162,10 +208,14 @@ class Worker:
                         d[k] = v
                     elif k == "prefixes":
                         d[k] = v if isinstance(v, bool) else list(v)
+                if u.get("fault") and "magnitude" not in d:
+                    d = _FaultyMagnitude(d, u["fault"])      # raises a BaseException instead of KeyError
                 out[sym] = d
             elif "quantity" in u:
                 q = self.Quantity(u["expr"][0], u["expr"][1])
-                if u["quantity"][0]:
+                if u["quantity"][0] and u.get("fault"):
+                    q.magnitude = _FaultyValue(u["fault"])   # unit.magnitude.value raises a BaseException
+                elif u["quantity"][0]:
                     q.magnitude = None           # evaluating unit.magnitude.value raises AttributeError
                 else:
                     qvals[str(u["qid"])] = [repr(q.magnitude.value * q.baseunits.magnitude),
@@ -179,11 +229,8 @@ class Worker:
                     out[sym] = None
                 elif kind == "int":
                     out[sym] = 5
-                else:
-                    class FaultyDict(dict):
-                        def __contains__(self, k):
-                            raise RuntimeError("injected fault")
-                    out[sym] = FaultyDict(magnitude=1, dimensions=[1, 0, 0, 0, 0, 0, 0, 0])
+                else:        # "faulty", "faulty-base", "faulty-kbd", "faulty-exit"
+                    out[sym] = _FaultyContains(kind[7:] if kind.startswith("faulty-") else "exc")
         return out
 
     # ---- executing a program with real `with` statements
@@ -213,7 +260,7 @@ class Worker:
         elif k == "attempt":
             try:
                 self.exec_prog(p[1], ev, active, qvals, mism)
-            except Exception:
+            except BaseException:      # the model has one kind of exception; injected faults include non-Exceptions
                 ev.append("caught")
         elif k == "scope":
             units = self.build_units(p[1], qvals)
@@ -254,7 +301,7 @@ class Worker:
         try:
             self.exec_prog(req["prog"], ev, [], qvals, mism)
             ok = True
-        except Exception:
+        except (Exception, _Interrupt, KeyboardInterrupt, SystemExit):
             ok = False
         return self.finish({"ok": ok, "events": ev, "qvals": qvals, "mismatch": mism})
 
@@ -271,7 +318,7 @@ class Worker:
             return list(self.S.UNIT_STANDARD.keys())[n0:]
 
         def udef(v):
-            if not isinstance(v, dict):
+            if not isinstance(v, dict) or getattr(v, "_c09_fault", None) == "early":
                 return {"other": "x"}
             d = {}
             for k in ("magnitude", "dimensions"):
@@ -313,6 +360,12 @@ class Worker:
                 text = text.replace("@DIR@", tmp)
             try:
                 with DIP() as p:
+                    if req.get("preset_fault"):
+                        # a unit the caller put into the DIP environment whose definition object raises a
+                        # non-Exception fault when registered, AFTER another unit has been registered
+                        p.env.units.units["[pre]"] = {"magnitude": 3.0, "dimensions": [1, 0, 0, 0, 0, 0, 0, 0],
+                                                      "value": "3", "units": "m", "source": None}
+                        p.env.units.units["[zfault]"] = _FaultyContains(req["preset_fault"])
                     p.add_string(text)
                     env = p.parse()
                     return env.data(Format.TUPLE)
@@ -336,7 +389,7 @@ class Worker:
             res["ok"] = True
             res["data"] = {k: [repr(v[0]) if not isinstance(v[0], (int, float)) else float(v[0]), v[1]]
                            if isinstance(v, tuple) else repr(v) for k, v in data.items()}
-        except Exception as e:
+        except (Exception, _Interrupt, KeyboardInterrupt, SystemExit):
             res["ok"] = False
         res["trace"] = trace
         res["inside"] = inside
@@ -387,15 +440,24 @@ class WorkerProc:
         env["PYTHONWARNINGS"] = "ignore"
         self.p = subprocess.Popen([sys.executable, str(HERE), "--worker"], stdin=subprocess.PIPE,
                                   stdout=subprocess.PIPE, stderr=subprocess.DEVNULL, text=True, env=env)
-        self.g0 = json.loads(self.p.stdout.readline())["g0"]
+        self.g0 = json.loads(self._readline(300))["g0"]
 
-    def ask(self, req):
-        self.p.stdin.write(json.dumps(req) + "\n")
-        self.p.stdin.flush()
+    def _readline(self, timeout):
+        """One answer line; a worker that hangs or dies is a tool failure (exit 2), never a verdict."""
+        import select
+        ready, _, _ = select.select([self.p.stdout], [], [], timeout)
+        if not ready:
+            self.p.kill()
+            raise subprocess.TimeoutExpired("C09 worker", timeout)
         line = self.p.stdout.readline()
         if not line:
-            raise RuntimeError("C09 worker died")
-        return json.loads(line)
+            raise RuntimeError("C09 worker died (rc=%s)" % self.p.poll())
+        return line
+
+    def ask(self, req, timeout=120):
+        self.p.stdin.write(json.dumps(req) + "\n")
+        self.p.stdin.flush()
+        return json.loads(self._readline(timeout))
 
     def close(self):
         try:
@@ -533,7 +595,7 @@ class Gen:
         if r.random() < 0.5:
             i = r.randint(0, len(units))
             kind = r.choice(["existing", "outer", "clash", "clash-custom", "rev", "badprefix", "nomag", "nodim",
-                             "nomag-type", "other", "brokenq"])
+                             "nomag-type", "other", "brokenq", "base-early", "base-late", "base-quantity"])
             ent = None
             if kind == "existing":
                 ent = [r.choice(self.uni["existing"]), self.good_def()]
@@ -563,6 +625,18 @@ class Gen:
                 ent = [free.pop(), {"dict": d}]
             elif kind == "other" and free:
                 ent = [free.pop(), {"other": r.choice(["str", "none", "int", "faulty"])}]
+            elif kind == "base-early" and free:
+                # a non-Exception fault (watchdog BaseException, KeyboardInterrupt, SystemExit) at the first access
+                ent = [free.pop(), {"other": "faulty-" + r.choice(["base", "kbd", "exit"])}]
+            elif kind == "base-late" and free:
+                # ... at `unit['magnitude']`, after the conversion class has gone into UNIT_TYPES
+                d = self.good_def(False)["dict"]
+                d.pop("magnitude")
+                d["definition"] = {"ty": r.choice(TYPE_POOL)}
+                ent = [free.pop(), {"dict": d, "fault": r.choice(["base", "kbd", "exit"])}]
+            elif kind == "base-quantity" and free:
+                ent = [free.pop(), {"quantity": [True, "", ""], "expr": r.choice(QEXPRS), "qid": 0,
+                                    "fault": r.choice(["base", "kbd", "exit"])}]
             elif kind == "brokenq" and free:
                 ent = [free.pop(), {"quantity": [True, "", ""], "expr": r.choice(QEXPRS), "qid": 0}]
             if ent is not None:
@@ -1175,13 +1249,22 @@ def dip_stream(ctx, worker, g0, count):
     for m in POSITION_MODES:
         for _ in range(per_mode):
             cases.append(gen_dip_positions(ctx.rng, m))
+    # a definition object in the DIP environment that raises a non-Exception fault during registration,
+    # after another unit has been registered: every scope a call site opens must roll back
+    for kind in ("base", "kbd", "exit", "exc"):
+        for _ in range(2 if count < 1000 else 6):
+            c = gen_dip(ctx.rng)
+            c.update({"preset_fault": kind, "expect_ok": None, "expect": {}, "mode": "preset-fault-" + kind})
+            c.pop("control", None)
+            c["symbols"] = c.get("symbols", []) + ["[pre]"]
+            cases.append(c)
     for _ in range(max(0, count - per_mode * len(POSITION_MODES))):
         cases.append(gen_dip_positions(ctx.rng) if ctx.rng.random() < 0.3 else gen_dip(ctx.rng))
     seen_sig = set()
     traced = []
     for c in cases:
         r = worker.ask({"kind": "dip", "text": c["text"], "symbols": c.get("symbols", []), "outer": c.get("outer"),
-                        "files": c.get("files")})
+                        "files": c.get("files"), "preset_fault": c.get("preset_fault"), "preset_fault": c.get("preset_fault")})
         ctx.case(["dip", c["text"], bool(c.get("outer"))], "$unit" in c["text"],
                  {"dip": c["text"], "outer": bool(c.get("outer"))})
         ctx.count("dip.mode." + c.get("mode", "corpus"))
@@ -1192,7 +1275,7 @@ def dip_stream(ctx, worker, g0, count):
         ctx.count("dip.parse_ok" if r["ok"] else "dip.parse_err")
         ctx.count("dip.scopes_opened", sum(1 for t in r["trace"] if t[0] == "init"))
         replay = {"stream": "dip", "text": c["text"], "outer": c.get("outer"), "symbols": c.get("symbols", []),
-                  "files": c.get("files"),
+                  "files": c.get("files"), "preset_fault": c.get("preset_fault"),
                   "impl_ok": r["ok"], "impl_final": r["final"], "clean": clean}
         sigs = []
         if r["final"] != clean or not r["deep_same"]:
@@ -1226,7 +1309,7 @@ def dip_stream(ctx, worker, g0, count):
             # minimal replay: drop lines of the text while the same deviation remains
             def fails(lines, sig=sig, c=c):
                 rr = worker.ask({"kind": "dip", "text": "\n".join(lines) + "\n", "symbols": c.get("symbols", []),
-                                 "outer": c.get("outer"), "files": c.get("files")})
+                                 "outer": c.get("outer"), "files": c.get("files"), "preset_fault": c.get("preset_fault")})
                 if "error" in rr:
                     return False
                 if sig.startswith("leak:dip"):
@@ -1308,7 +1391,7 @@ def replay(ctx, payload):
         if payload.get("replay", {}).get("stream") == "dip":
             rp = payload["replay"]
             r = worker.ask({"kind": "dip", "text": rp["text"], "symbols": rp.get("symbols", []), "outer": rp.get("outer"),
-                            "files": rp.get("files")})
+                            "files": rp.get("files"), "preset_fault": rp.get("preset_fault")})
             print(json.dumps(r, indent=1)[:3000])
             bad = r.get("final") != clean or not r.get("deep_same", True) or r.get("outside_known")
         else:
